@@ -308,6 +308,18 @@ def cognitoRedeem (t : TokenResp) (u : UserinfoResp) : LoginRes × List String :
       | _ => (.error, ["token", "userinfo"])
   | _ => (.error, ["token"])
 
+inductive ProvKind where
+  | google | okta | cognito
+  deriving Repr, DecidableEq
+
+/-- `Provider.Redeem(redirectURL, code)` of each identity provider: an empty code is refused before any call. -/
+def redeemOf (k : ProvKind) (code : String) (t : TokenResp) (idt : IDTok) (u : UserinfoResp) : LoginRes × List String :=
+  if code = "" then (.error, [])
+  else match k with
+    | .google => (googleRedeem t idt, ["token"])
+    | .okta => oktaRedeem t u
+    | .cognito => cognitoRedeem t u
+
 /-- the callback after Redeem: nonce check, redirect re-validation, e-mail rule -/
 structure CbIn where
   errorParam : String
